@@ -40,6 +40,17 @@ func (g *RegexGen) bracket() rxPiece {
 	n := 1 + r.Intn(3)
 	var sb strings.Builder
 	in := In{Not: neg}
+	hy := r.Intn(12)
+	switch hy {
+	case 0: // a hyphen that opens the class stands for itself
+		sb.WriteByte('-')
+		in.Items = append(in.Items, ListItem{Kind: "lit", S: "-"})
+	case 1: // ... unless it opens a range: '-' up to '.' or '0' or '9' (a '/' would end the literal)
+		hi := []byte{'.', '0', '9'}[r.Intn(3)]
+		sb.WriteString("--")
+		sb.WriteByte(hi)
+		in.Items = append(in.Items, ListItem{Kind: "range", From: "-", To: string([]byte{hi})})
+	}
 	for i := 0; i < n; i++ {
 		if r.Chance(1, 3) {
 			lo := g.ch()
@@ -58,6 +69,10 @@ func (g *RegexGen) bracket() rxPiece {
 			sb.WriteByte(c)
 			in.Items = append(in.Items, ListItem{Kind: "lit", S: string([]byte{c})})
 		}
+	}
+	if hy == 2 { // a hyphen that closes the class stands for itself too
+		sb.WriteByte('-')
+		in.Items = append(in.Items, ListItem{Kind: "lit", S: "-"})
 	}
 	src := "[" + sb.String() + "]"
 	if neg {
